@@ -47,7 +47,7 @@ def load_kf(prop):
     return out
 
 
-def run(prop, fmt, features, kf_classes=None, argv=None):
+def run(prop, fmt, features, kf_classes=None, argv=None, reader=None, label="round trip", share=1.0):
     if kf_classes is None:
         kf_classes = load_kf(prop)
     ap = argparse.ArgumentParser()
@@ -56,8 +56,8 @@ def run(prop, fmt, features, kf_classes=None, argv=None):
     ap.add_argument("--tier", default="quick")
     ap.add_argument("--seed", type=int, default=0)
     ap.add_argument("--out")
-    a = ap.parse_args(argv)
-    count = 2500 if a.tier == "thorough" else 400
+    a, _unknown = ap.parse_known_args(argv)
+    count = int((2500 if a.tier == "thorough" else 400) * share)
     opts = options(fmt)
     failures = {}
     n = 0
@@ -69,8 +69,12 @@ def run(prop, fmt, features, kf_classes=None, argv=None):
         before = common.strict(d)
         nontrivial.add(repr(before))
         try:
-            text, d2 = roundtrip(d, fmt, kw)
-            after = common.strict(d2)
+            if reader is None:
+                text, d2 = roundtrip(d, fmt, kw)
+                after = common.strict(d2)
+            else:
+                text = d.serialize(format=fmt, **kw)
+                after = reader(text)
             cls = None if after == before else common.classify(before, after)
             detail = common.diff_strict(before, after) if cls else None
         except Exception as e:  # noqa
@@ -87,7 +91,7 @@ def run(prop, fmt, features, kf_classes=None, argv=None):
             fk = (cls, kf)
             if fk not in failures or len(common.describe(d)) < failures[fk]["size"]:
                 failures[fk] = {"key": cls, "kf": kf, "clauses": ["round-trip", cls.split(":")[0]], "size": len(common.describe(d)),
-                                 "what": "%s round trip (%s) of generated document #%d (seed %d) changes the content: %s" % (fmt, kw, i, a.seed, cls),
+                                 "what": "%s %s (%s) of generated document #%d (seed %d) changes the content: %s" % (fmt, label, kw, i, a.seed, cls),
                                  "detail": detail, "features": d._features, "provn": common.describe(d)[:3000], "text": (text or "")[:3000],
                                  "history": ["seed=%d case=%d options=%s" % (a.seed, i, kw)]}
     if a.replay:
@@ -103,7 +107,7 @@ def run(prop, fmt, features, kf_classes=None, argv=None):
            "failures_found": len(failures), "failures": list(failures.values())}
     if a.out:
         json.dump(res, open(a.out, "w"), indent=1)
-    print("%s native battery (%s round trip): %d documents, %d distinct, %d failure classes" % (prop, fmt, n, len(nontrivial), len(failures)))
+    print("%s native battery (%s %s): %d documents, %d distinct, %d failure classes" % (prop, fmt, label, n, len(nontrivial), len(failures)))
     for f in failures.values():
         print("  ", "[%s]" % (f["kf"] or "NEW"), f["key"], "|", (f["detail"] or [""])[0][:160])
     return 1 if [f for f in failures.values() if not f["kf"]] else 0
